@@ -552,6 +552,7 @@ func runC14(c *Check) {
 	ruleWriteMethodsWrite(c, p)
 	ruleSinglePurposeWriters(c, p, "C14-R7")
 	rulePersistentStoreIsOnDisk(c, p, "C14-R8")
+	ruleWritersRefuseNothing(c, p, "C14-R9")
 	// ---- R6: a getter returns the record of its own kind
 	c.Doc("C14-R6", "CS: every store method that returns a header, data, signature or state reads (itself or through the store methods it calls) the record kind that holds that value; a value reconstructed from another record is not 'what the latest write stored'.")
 	{
@@ -1546,5 +1547,63 @@ func rulePersistentStoreIsOnDisk(c *Check, p *Prog, rule string) {
 	}
 	if n == 0 {
 		c.Unk(rule, "NewDefaultKVStore ⟂ returns", fnName(fn), "", "anchor lost: no accepting return")
+	}
+}
+
+// ruleWritersRefuseNothing (C14-R9 / C05-R8): the store is a map: a write of a well-formed value
+// succeeds unless an operation underneath fails. The restart path relies on it — it re-saves the
+// genesis placeholder at the initial height whenever no state is stored, and the production step
+// re-saves the block it found pending. A writer that refuses on the ground of what it already
+// holds ("a signed block is stored there") turns one crash into a node that cannot be started.
+// Every error return of a write method therefore lies behind the error edge of some call.
+func ruleWritersRefuseNothing(c *Check, p *Prog, rule string) {
+	c.Doc(rule, "GA: every error return of the store's write methods (SaveBlockData, UpdateState, SetHeight, SetMetadata) follows the failure of a call underneath (encoding, datastore): the store never refuses a write because of what is stored already.")
+	n := 0
+	for _, m := range []string{"SaveBlockData", "SetHeight", "SetMetadata", "UpdateState"} {
+		fn := p.Func("(*" + storePkg + ".DefaultStore)." + m)
+		if fn == nil {
+			c.Unk(rule, m+" ⟂ refuses nothing", "", "", "anchor lost: store method "+m)
+			continue
+		}
+		g := BuildECFG(p, fn, ExpandOpts{MaxDepth: 0})
+		c.NoteGraph(g)
+		n++
+		failed := g.Select(EdgeWhere(func(t *Term, pol bool, nd *Node) bool {
+			t, pol = normFact(t, pol)
+			if t.Op != "bin" || len(t.Args) != 2 || t.Args[1].Name != "nil" || (t.Name != "!=" && t.Name != "==") {
+				return false
+			}
+			notNil := (t.Name == "!=") == pol
+			a := t.Args[0]
+			if a.Op == "extract" && len(a.Args) > 0 {
+				a = a.Args[0]
+			}
+			return notNil && (a.Op == "call" || a.Op == "invoke")
+		}))
+		var refusing *Node
+		for _, x := range g.Exits {
+			if g.ExitClass(x) != rcA {
+				continue
+			}
+			// the error returned is a callee's own result (tail call)?
+			ret := x.In.(*ssa.Return)
+			rt := TermOf(spilledResult(ret, len(ret.Results)-1), x.Ctx)
+			if (rt.Op == "call" || rt.Op == "invoke" || rt.Op == "extract") && !rt.IsCall("fmt.Errorf") && !rt.IsCall("errors.New") && !rt.IsCall("errors.Join") {
+				continue
+			}
+			xx := x
+			if g.PathAvoiding([]*Node{g.Entry}, func(y *Node) bool { return y == xx }, nodeSet(failed)) != nil {
+				refusing = x
+			}
+		}
+		inst := m + " ⟂ refuses nothing"
+		if refusing == nil {
+			c.OK(rule, inst, fnName(fn), p.Pos(fn.Pos()), "every error return follows the failure of a call underneath", true)
+		} else {
+			c.Bad(rule, inst, fnName(fn), p.InstrPos(refusing.In), "the method can return an error without any operation underneath having failed: it refuses the write on a condition of its own (e.g. what is already stored at that key). The restart path re-saves the genesis placeholder and the pending block: after a crash at the wrong moment such a refusal repeats on every start", nil)
+		}
+	}
+	if n < 4 {
+		c.Unk(rule, "anchor-count", "", "", fmt.Sprintf("anchor lost: %d of the 4 store writers found", n))
 	}
 }
